@@ -100,3 +100,23 @@ pub fn i32_to_string<T: ?Sized>(x: &T) -> String {
     v.push(b'a' + (u & 15) as u8);
     unsafe { String::from_utf8_unchecked(v) }
 }
+
+/// libm functions Kani has no model for (tanf): arbitrary result. Values of transcendental
+/// functions are outside every claim.
+pub fn f32_any(_x: f32) -> f32 {
+    kani::any()
+}
+
+/// Harness with the three registry stubs applied (dispatch by name through the real load_* code).
+#[macro_export]
+macro_rules! reg_harness {
+    ($name:ident, $unwind:expr, $body:block) => {
+        #[kani::proof]
+        #[kani::unwind($unwind)]
+        #[kani::stub(std::hash::RandomState::new, crate::stubs::random_state_new)]
+        #[kani::stub(pushr::push::instructions::Instruction::new, crate::stubs::instruction_new)]
+        #[kani::stub(std::collections::HashMap::insert, crate::stubs::hashmap_insert)]
+        #[kani::stub(f32::powf, crate::gen::libm_table::powf_table)]
+        pub fn $name() $body
+    };
+}
